@@ -16,6 +16,7 @@ import (
 	usync "github.com/mgtv-tech/redis-GunYu/pkg/sync"
 	"github.com/mgtv-tech/redis-GunYu/syncer"
 
+	"verifsim/resp"
 	"verifsim/simredis"
 	"verifsim/simrt"
 )
@@ -261,6 +262,7 @@ type incarnation struct {
 	phase    int // 0 starting, 1 sending, 2 ended
 	sendErr  error
 	wasReset bool // the target dropped this incarnation's connections (fault target_reset_reachable)
+	refused  bool // the target, still loading its dataset, refused a request of this incarnation's start (fault target_loading)
 	startOff int64 // offset the input stub resumed the stream at
 	startIdx int   // first item fed to this incarnation
 	startDB  int   // DB returned by StartPoint
@@ -306,13 +308,41 @@ type PipeSim struct {
 	viol     *Violation
 	viols    []*Violation
 	prop     string
+	// loadingLeft > 0: the target was restarted and is still loading its dataset; the next loadingLeft requests that
+	// Redis does not serve while loading are answered -LOADING (fault target_loading, crash harness)
+	loadingLeft int
+	loadingSkip int // requests served before the refusals begin (the load - or a blocking script - ends or begins in the middle of the start)
 }
+
+// okLoading: commands Redis serves while it loads its dataset (command flag "loading"), as far as the tool uses them.
+var okLoading = map[string]bool{"auth": true, "hello": true, "info": true, "select": true, "multi": true, "exec": true, "discard": true,
+	"client": true, "command": true, "config": true, "script": true}
+
+const loadingReply = "LOADING Redis is loading the dataset in memory"
 
 func NewPipeSim(r *Run, prop string, cfg PipeCfg, st *Stream) *PipeSim {
 	ps := &PipeSim{r: r, cfg: cfg, st: st, prop: prop}
 	ps.srv = simredis.NewServer(simTargetAddr)
 	ps.srv.Lenient = true
 	r.Net.Listen(simTargetAddr, ps.srv)
+	ps.srv.Intercept = func(ss *simredis.Session, name string, args [][]byte) *resp.Value {
+		if ps.loadingLeft <= 0 || okLoading[name] {
+			return nil
+		}
+		if ps.loadingSkip > 0 {
+			ps.loadingSkip--
+			return nil
+		}
+		ps.loadingLeft--
+		if ss.InMulti {
+			ss.QueueErr = true
+		}
+		if ps.inc != nil {
+			ps.inc.refused = true
+		}
+		v := resp.Err(loadingReply)
+		return &v
+	}
 	ps.runID = "5f3c0a9e1b2d4c6f8a7b9c0d1e2f3a4b5c6d7e8f"
 	ps.cpName = "redis-gunyu-checkpoint-sim"
 	return ps
@@ -427,6 +457,9 @@ func (ps *PipeSim) startIncarnation() {
 func (ps *PipeSim) absorb() {
 	for ; ps.logPos < len(ps.srv.Log); ps.logPos++ {
 		e := ps.srv.Log[ps.logPos]
+		if e.IsErr && e.Reply == loadingReply {
+			continue // injected: the target is loading
+		}
 		if e.IsErr {
 			ps.setViolation(ps.prop+".target_error", "target answered an error", "target answered an error to %s", e.String())
 			continue
